@@ -17,6 +17,9 @@ Rewrites (each preserves the value of every expression and the order of all side
   split-or-guard         if a or b: exit        ->   if a: exit ; if b: exit
   ifexp-to-if            t = A if c else B      ->   if c: t = A else: t = B
   reword-error           the text of an error message is changed (type unchanged)
+  exchange / aliasparam / deadbranch / wraptrue / pluszero / demorgan : adversarial-style rewrites (names of two locals exchanged
+                         consistently, a parameter read through an alias, `if False: raise`, body wrapped in `if True:`, `e + 0` in an
+                         index, De Morgan on a two-operand test)
 usage: python -m tmverif.preserve <PID> --funcs mod.func,mod.func [--jobs 16] [--json out.json]
 """
 import ast, copy, json, os, shutil, subprocess, sys, tempfile
@@ -142,6 +145,24 @@ def rewrites_of(func):
         out.append(("idx-commute @%d `%s`" % (x.lineno, ast.unparse(x)[:50]), ("commute", k)))
     for name in local_names(func):
         out.append(("rename local `%s` -> `%s_v`" % (name, name), ("rename", name)))
+    # adversarial-style rewrites
+    ln = local_names(func)
+    for a_, b_ in list(zip(ln, ln[1:]))[:6]:
+        out.append(("exchange the names of locals `%s` and `%s`" % (a_, b_), ("exchange", a_, b_)))
+    params = [a.arg for a in func.args.args]
+    stores = {n.id for n in ast.walk(func) if isinstance(n, ast.Name) and isinstance(n.ctx, ast.Store)}
+    nested_names = {x.id for nd in ast.walk(func) if isinstance(nd, (ast.Lambda, ast.ListComp, ast.SetComp, ast.DictComp, ast.GeneratorExp, ast.FunctionDef))
+                    and nd is not func for x in ast.walk(nd) if isinstance(x, ast.Name)}
+    for p_ in params[:4]:
+        if p_ not in stores and p_ not in nested_names and any(isinstance(n, ast.Name) and n.id == p_ for n in ast.walk(func)):
+            out.append(("alias parameter `%s` through a local" % p_, ("aliasparam", p_)))
+    out.append(("unreachable branch `if False: raise` at the top", ("deadbranch", 0)))
+    out.append(("wrap the body in `if True:`", ("wraptrue", 0)))
+    for k, x in enumerate(int_context_nodes(func)[:6]):
+        out.append(("plus-zero @%d `%s`" % (x.lineno, ast.unparse(x)[:40]), ("pluszero", k)))
+    for idx, n in enumerate(nodes):
+        if isinstance(n, ast.If) and isinstance(n.test, ast.BoolOp) and len(n.test.values) == 2:
+            out.append(("de-morgan @%d `if %s`" % (n.lineno, ast.unparse(n.test)[:40]), ("demorgan", idx)))
     out.append(("nop statement at the top", ("nop", 0)))
     return out
 
@@ -255,6 +276,35 @@ def apply(func, spec):
                 if isinstance(x, ast.Constant) and isinstance(x.value, str):
                     x.value = x.value + " (see the documentation)"
                     break
+    elif kind == "exchange":
+        a_, b_ = spec[1], spec[2]
+        for x in ast.walk(func):
+            if isinstance(x, ast.Name) and x.id in (a_, b_):
+                x.id = b_ if x.id == a_ else a_
+    elif kind == "aliasparam":
+        p_ = spec[1]
+        alias = p_ + "_in"
+        for x in ast.walk(func):
+            if isinstance(x, ast.Name) and x.id == p_:
+                x.id = alias
+        k = 1 if (func.body and isinstance(func.body[0], ast.Expr) and isinstance(func.body[0].value, ast.Constant)) else 0
+        func.body.insert(k, ast.Assign(targets=[ast.Name(id=alias, ctx=ast.Store())], value=ast.Name(id=p_, ctx=ast.Load()), lineno=func.lineno))
+    elif kind == "deadbranch":
+        k = 1 if (func.body and isinstance(func.body[0], ast.Expr) and isinstance(func.body[0].value, ast.Constant)) else 0
+        func.body.insert(k, ast.If(test=ast.Constant(value=False), body=[ast.Raise(exc=ast.Call(func=ast.Name(id="ValueError", ctx=ast.Load()),
+                         args=[ast.Constant(value="unreachable")], keywords=[]), cause=None)], orelse=[]))
+    elif kind == "wraptrue":
+        k = 1 if (func.body and isinstance(func.body[0], ast.Expr) and isinstance(func.body[0].value, ast.Constant)) else 0
+        body = func.body[k:]
+        func.body[k:] = [ast.If(test=ast.Constant(value=True), body=body, orelse=[])]
+    elif kind == "pluszero":
+        x = int_context_nodes(func)[spec[1]]
+        x.right = ast.BinOp(left=x.right, op=ast.Add(), right=ast.Constant(value=0))
+    elif kind == "demorgan":
+        n = nodes[spec[1]]
+        t = n.test
+        inv = ast.And if isinstance(t.op, ast.Or) else ast.Or
+        n.test = ast.UnaryOp(op=ast.Not(), operand=ast.BoolOp(op=inv(), values=[ast.UnaryOp(op=ast.Not(), operand=v) for v in t.values]))
     elif kind == "nop":
         k = 1 if (func.body and isinstance(func.body[0], ast.Expr) and isinstance(func.body[0].value, ast.Constant)) else 0
         func.body.insert(k, ast.Assign(targets=[ast.Name(id="_unused", ctx=ast.Store())], value=ast.Constant(value=None), lineno=func.lineno))
